@@ -28,11 +28,16 @@ type lcCfg struct {
 	FlvSubs    []string `json:"flvSubs"`
 	PullRetry  int      `json:"pullRetry"`
 	PullAutoMs int      `json:"pullAutoMs"`
+	Hook       bool     `json:"hook"`
 }
 
 type lcStep struct {
 	Name string `json:"name"`
 	X    string `json:"x"`
+	// hints from the model (only used to decide how long to wait for asynchronous effects; the
+	// verdict is TLC's, on what was observed)
+	ExpAttempts int `json:"expAttempts"`
+	ExpNotif    int `json:"expNotif"`
 }
 
 type lcScenario struct {
@@ -55,15 +60,15 @@ func (n *lcNotify) add(ev, id string) {
 	n.evs = append(n.evs, M{"ev": ev, "id": n.name(id)})
 	n.mu.Unlock()
 }
-func (n *lcNotify) OnServerStart(info base.LalInfo)         {}
-func (n *lcNotify) OnUpdate(info base.UpdateInfo)           {}
-func (n *lcNotify) OnPubStart(info base.PubStartInfo)       { n.add("pub_start", info.SessionId) }
-func (n *lcNotify) OnPubStop(info base.PubStopInfo)         { n.add("pub_stop", info.SessionId) }
-func (n *lcNotify) OnSubStart(info base.SubStartInfo)       { n.add("sub_start", info.SessionId) }
-func (n *lcNotify) OnSubStop(info base.SubStopInfo)         { n.add("sub_stop", info.SessionId) }
+func (n *lcNotify) OnServerStart(info base.LalInfo)          {}
+func (n *lcNotify) OnUpdate(info base.UpdateInfo)            {}
+func (n *lcNotify) OnPubStart(info base.PubStartInfo)        { n.add("pub_start", info.SessionId) }
+func (n *lcNotify) OnPubStop(info base.PubStopInfo)          { n.add("pub_stop", info.SessionId) }
+func (n *lcNotify) OnSubStart(info base.SubStartInfo)        { n.add("sub_start", info.SessionId) }
+func (n *lcNotify) OnSubStop(info base.SubStopInfo)          { n.add("sub_stop", info.SessionId) }
 func (n *lcNotify) OnRelayPullStart(info base.PullStartInfo) { n.add("pull_start", info.SessionId) }
 func (n *lcNotify) OnRelayPullStop(info base.PullStopInfo)   { n.add("pull_stop", info.SessionId) }
-func (n *lcNotify) OnRtmpConnect(info base.RtmpConnectInfo) {}
+func (n *lcNotify) OnRtmpConnect(info base.RtmpConnectInfo)  {}
 func (n *lcNotify) OnHlsMakeTs(info base.HlsMakeTsInfo) {
 	// used as a FIFO barrier: the single notify worker delivers it after everything queued before
 	if strings.HasPrefix(info.Event, "verif-marker") {
@@ -111,8 +116,8 @@ func (nullRtspObserver) OnNewRtspSubSessionDescribe(session *rtsp.SubSession) (o
 	return true, nil
 }
 func (nullRtspObserver) OnNewRtspSubSessionPlay(session *rtsp.SubSession) error { return nil }
-func (nullRtspObserver) OnDelRtspPubSession(session *rtsp.PubSession)            {}
-func (nullRtspObserver) OnDelRtspSubSession(session *rtsp.SubSession)            {}
+func (nullRtspObserver) OnDelRtspPubSession(session *rtsp.PubSession)           {}
+func (nullRtspObserver) OnDelRtspSubSession(session *rtsp.SubSession)           {}
 
 func init() { Registry["lifecycle"] = lifecycleDriver }
 
@@ -125,14 +130,101 @@ func lifecycleDriver(env *Env) error {
 		return err
 	}
 	defer tw.Close()
-	return ReadScenarios(env.In, func(raw json.RawMessage) error {
+	var scs []*lcScenario
+	if err := ReadScenarios(env.In, func(raw json.RawMessage) error {
 		var sc lcScenario
 		if err := json.Unmarshal(raw, &sc); err != nil {
 			return err
 		}
-		runLifecycleScenario(&sc, tw)
+		scs = append(scs, &sc)
 		return nil
-	})
+	}); err != nil {
+		return err
+	}
+	// scenarios are independent (own ServerManager, own origin): run them concurrently so that the
+	// real-time waits of the auto-stop scenarios overlap, and write the traces in scenario order
+	out := make([][]M, len(scs))
+	var wg sync.WaitGroup
+	sem := make(chan struct{}, 12)
+	for i := range scs {
+		wg.Add(1)
+		sem <- struct{}{}
+		go func(i int) {
+			defer wg.Done()
+			defer func() { <-sem }()
+			var evs []M
+			runLifecycleScenario(scs[i], func(m M) { evs = append(evs, m) })
+			out[i] = evs
+		}(i)
+	}
+	wg.Wait()
+	for _, evs := range out {
+		for _, e := range evs {
+			tw.Emit(e)
+		}
+	}
+	return nil
+}
+
+// lcOrigin is the gated stub origin of relay pulls: it accepts TCP connections and parks them until
+// the scenario decides what the origin does with the attempt.
+type lcOrigin struct {
+	ln       net.Listener
+	mu       sync.Mutex
+	attempts int
+	parked   []net.Conn
+	serving  net.Conn
+}
+
+func newLcOrigin() *lcOrigin {
+	ln, err := net.Listen("tcp", "127.0.0.1:0")
+	if err != nil {
+		return nil
+	}
+	o := &lcOrigin{ln: ln}
+	go func() {
+		for {
+			c, err := ln.Accept()
+			if err != nil {
+				return
+			}
+			o.mu.Lock()
+			o.attempts++
+			o.parked = append(o.parked, c)
+			o.mu.Unlock()
+		}
+	}()
+	return o
+}
+
+func (o *lcOrigin) count() int {
+	o.mu.Lock()
+	defer o.mu.Unlock()
+	return o.attempts
+}
+
+func (o *lcOrigin) take() net.Conn {
+	waitFor(3*time.Second, func() bool { o.mu.Lock(); defer o.mu.Unlock(); return len(o.parked) > 0 })
+	o.mu.Lock()
+	defer o.mu.Unlock()
+	if len(o.parked) == 0 {
+		return nil
+	}
+	c := o.parked[0]
+	o.parked = o.parked[1:]
+	return c
+}
+
+func (o *lcOrigin) close() {
+	o.ln.Close()
+	o.mu.Lock()
+	for _, c := range o.parked {
+		c.Close()
+	}
+	if o.serving != nil {
+		o.serving.Close()
+	}
+	o.mu.Unlock()
 }
 
 func kindOf(cfg *lcCfg, x string) string {
@@ -162,7 +254,7 @@ func waitFor(d time.Duration, cond func() bool) bool {
 	}
 }
 
-func runLifecycleScenario(sc *lcScenario, tw *TraceWriter) {
+func runLifecycleScenario(sc *lcScenario, emitEv func(M)) {
 	stream := fmt.Sprintf("lc%d", sc.Sc)
 	conf := `{"conf_version":"v0.4.1","rtmp":{"enable":false,"gop_num":0},"httpflv":{"enable":false,"gop_num":0},
 	 "log":{"level":5,"filename":"","is_to_stdout":false,"assert_behavior":1}}`
@@ -189,12 +281,18 @@ func runLifecycleScenario(sc *lcScenario, tw *TraceWriter) {
 		option.ConfRawContent = []byte(conf)
 		option.NotifyHandler = nh
 	})
-	sm.WithOnHookSession(func(uniqueKey string, streamName string) logic.ICustomizeHookSessionContext {
-		hookRec.add("hook_start", "?"+uniqueKey)
-		return &lcHook{key: uniqueKey, name: nameOf, rec: hookRec}
-	})
+	if sc.Cfg.Hook {
+		sm.WithOnHookSession(func(uniqueKey string, streamName string) logic.ICustomizeHookSessionContext {
+			hookRec.add("hook_start", "?"+uniqueKey)
+			return &lcHook{key: uniqueKey, name: nameOf, rec: hookRec}
+		})
+	}
 	sess := map[string]*lcSession{}
-	tw.Emit(M{"ev": "reset", "sc": sc.Sc, "cfgId": sc.CfgId})
+	emitEv(M{"ev": "reset", "sc": sc.Sc, "cfgId": sc.CfgId})
+	origin := newLcOrigin()
+	defer origin.close()
+	inconclusive := false
+	lastStep := time.Now()
 	nmark := 0
 	drain := func() ([]M, []M) {
 		nmark++
@@ -238,7 +336,7 @@ func runLifecycleScenario(sc *lcScenario, tw *TraceWriter) {
 	tick := uint32(0)
 	emit := func(name, x, ret string) {
 		n, h := drain()
-		ev := M{"ev": name, "obs": M{"ret": ret, "notif": n, "hook": h, "attempts": 0}}
+		ev := M{"ev": name, "obs": M{"ret": ret, "notif": n, "hook": h, "attempts": origin.count()}}
 		if x != "" {
 			ev["x"] = x
 		}
@@ -254,9 +352,33 @@ func runLifecycleScenario(sc *lcScenario, tw *TraceWriter) {
 			}
 		}
 		ev["stat"] = M{"exists": st != nil, "listed": listed}
-		tw.Emit(ev)
+		emitEv(ev)
 	}
+	countNotif := func(evn string) int {
+		nh.mu.Lock()
+		defer nh.mu.Unlock()
+		k := 0
+		for _, e := range nh.evs {
+			if e["ev"] == evn {
+				k++
+			}
+		}
+		return k
+	}
+	waitPullNotif := func() {
+		waitFor(3*time.Second, func() bool { return countNotif("pull_start")+countNotif("pull_stop") > 0 })
+	}
+	waitAttempts := func(st *lcStep) {
+		if st.ExpAttempts > origin.count() {
+			waitFor(3*time.Second, func() bool { return origin.count() >= st.ExpAttempts })
+		}
+	}
+	autoMs := sc.Cfg.PullAutoMs
 	for i, st := range sc.Steps {
+		if st.Name != "Advance" && autoMs > 0 && time.Since(lastStep) > time.Duration(autoMs)*time.Millisecond*4/10 {
+			inconclusive = true // the machine stalled: elapsed time no longer matches the abstract clock
+		}
+		lastStep = time.Now()
 		x := st.X
 		kind := kindOf(&sc.Cfg, x)
 		switch st.Name {
@@ -337,6 +459,7 @@ func runLifecycleScenario(sc *lcScenario, tw *TraceWriter) {
 				ret = "err"
 			}
 			s.conn.Drain()
+			waitAttempts(&st)
 			emit("NewSub", x, ret)
 		case "DelSub":
 			s := sess[x]
@@ -397,19 +520,100 @@ func runLifecycleScenario(sc *lcScenario, tw *TraceWriter) {
 					}
 				}
 			}
-			if len(h) == 0 && !fwd && ret == "ok" {
-				ret = "rejected" // nothing happened to it: neither the hook nor any subscriber saw it
+			ret = "rejected" // "ok" = it had an observable effect (hook callback or a subscriber received it)
+			if len(h) > 0 || fwd {
+				ret = "ok"
 			}
-			ev := M{"ev": "Probe", "x": x, "obs": M{"ret": ret, "notif": n, "hook": h, "attempts": 0, "fwd": fwd}}
-			tw.Emit(ev)
+			ev := M{"ev": "Probe", "x": x, "obs": M{"ret": ret, "notif": n, "hook": h, "attempts": origin.count(), "fwd": fwd}}
+			emitEv(ev)
 			continue
 		case "Tick":
 			tick++
 			sm.VerifTick(tick)
+			waitAttempts(&st)
+			if st.ExpNotif > 0 {
+				waitPullNotif()
+			}
 			emit("Tick", "", "ok")
+		case "StartPull":
+			resp := sm.CtrlStartRelayPull(base.ApiCtrlStartRelayPullReq{
+				Url: fmt.Sprintf("rtmp://%s/live/%s", origin.ln.Addr().String(), stream), StreamName: stream,
+				PullTimeoutMs: 5000, PullRetryNum: sc.Cfg.PullRetry, AutoStopPullAfterNoOutMs: sc.Cfg.PullAutoMs})
+			ret := "ok"
+			if resp.ErrorCode != base.ErrorCodeSucc {
+				ret = "fail"
+			}
+			waitAttempts(&st)
+			emit("StartPull", "", ret)
+		case "StopPull", "KickPull":
+			ret := "ok"
+			var code int
+			if st.Name == "StopPull" {
+				code = sm.CtrlStopRelayPull(stream).ErrorCode
+			} else {
+				key := base.UkPreRtmpPullSession + "999999"
+				if g := sm.GetGroup("", stream); g != nil {
+					if sp := sm.StatGroup(stream); sp != nil && sp.StatPull.SessionId != "" {
+						key = sp.StatPull.SessionId
+					}
+				}
+				code = sm.CtrlKickSession(base.ApiCtrlKickSessionReq{StreamName: stream, SessionId: key}).ErrorCode
+			}
+			switch code {
+			case base.ErrorCodeGroupNotFound:
+				ret = "nogroup"
+			case base.ErrorCodeSessionNotFound:
+				ret = "nosession"
+			}
+			if st.ExpNotif > 0 || ret == "ok" {
+				waitPullNotif()
+			}
+			emit(st.Name, "", ret)
+		case "PullOk":
+			c := origin.take()
+			if c != nil {
+				origin.mu.Lock()
+				origin.serving = c
+				origin.mu.Unlock()
+				go func() { _ = rtmp.NewServerSession(nullObserver{}, c).RunLoop() }()
+			}
+			waitPullNotif()
+			// a refused attempt is disposed by lal: its stop notification follows the refusal
+			n0 := countNotif("pull_start")
+			if n0 == 0 {
+				waitFor(3*time.Second, func() bool { return countNotif("pull_stop") > 0 })
+			}
+			ret := "ok"
+			if n0 == 0 {
+				ret = "dup"
+			}
+			emit("PullOk", "", ret)
+		case "PullFail":
+			if c := origin.take(); c != nil {
+				c.Close()
+			}
+			waitFor(3*time.Second, func() bool { return countNotif("pull_stop") > 0 })
+			emit("PullFail", "", "ok")
+		case "PullEnd":
+			origin.mu.Lock()
+			if origin.serving != nil {
+				origin.serving.Close()
+				origin.serving = nil
+			}
+			origin.mu.Unlock()
+			waitFor(3*time.Second, func() bool { return countNotif("pull_stop") > 0 })
+			emit("PullEnd", "", "ok")
+		case "Advance":
+			time.Sleep(time.Duration(autoMs)*time.Millisecond + 60*time.Millisecond)
+			lastStep = time.Now()
+			emit("Advance", "", "ok")
 		}
 	}
+	if inconclusive {
+		emitEv(M{"ev": "inconclusive", "sc": sc.Sc})
+	}
 	// tear down: dispose whatever is left so that goroutines and sockets do not accumulate
+	sm.CtrlStopRelayPull(stream)
 	for x, s := range sess {
 		_ = x
 		if s.kind == "psPub" {
